@@ -162,6 +162,8 @@ pub fn close(model: &dyn Model, prop: &str, caps: &ClosureCaps, bounds: Value) -
         capped,
         samples,
         found: out,
+        reached: Vec::new(),
+        not_reached: Vec::new(),
         wall_s: t0.elapsed().as_secs_f64(),
     }
 }
